@@ -269,6 +269,9 @@ func (r *Runner) builtin(ctx context.Context, pos syntax.Pos, name string, args 
 			r.out("\n")
 		}
 	case "printf":
+		if len(args) > 0 && args[0] == "--" {
+			args = args[1:] // end of options
+		}
 		if len(args) == 0 {
 			return failf(2, "usage: printf format [arguments]\n")
 		}
